@@ -173,21 +173,21 @@ func rexpRun(in *bufio.Scanner, out *bufio.Writer) {
 // ---------------------------------------------------------------- C05: concurrent validations
 
 type concCall struct {
-	Kind   string      `json:"kind"` // oneshot | shared | param | spec | setopt | pattern | helper
-	Schema *schemaCase `json:"schema,omitempty"`
-	Simple *simpleCase `json:"simple,omitempty"`
-	Shared int         `json:"shared,omitempty"` // index of the shared long-lived validator
+	Kind   string          `json:"kind"` // oneshot | shared | param | spec | setopt | pattern | helper
+	Schema *schemaCase     `json:"schema,omitempty"`
+	Simple *simpleCase     `json:"simple,omitempty"`
+	Shared int             `json:"shared,omitempty"` // index of the shared long-lived validator
 	Value  json.RawMessage `json:"value,omitempty"`
-	Spec   string      `json:"spec,omitempty"`   // fixture path relative to /repo
-	Flag   bool        `json:"flag,omitempty"`
-	Rexp   *rexpOp     `json:"rexp,omitempty"`
+	Spec   string          `json:"spec,omitempty"` // fixture path relative to /repo
+	Flag   bool            `json:"flag,omitempty"`
+	Rexp   *rexpOp         `json:"rexp,omitempty"`
 }
 
 type concCase struct {
-	ID      int               `json:"id"`
-	Shared  []schemaCase      `json:"shared"`  // schemas of the shared non-recycling validators (no $ref)
-	Threads [][]concCall      `json:"threads"` // one program per goroutine
-	Procs   int               `json:"procs,omitempty"`
+	ID      int          `json:"id"`
+	Shared  []schemaCase `json:"shared"`  // schemas of the shared non-recycling validators (no $ref)
+	Threads [][]concCall `json:"threads"` // one program per goroutine
+	Procs   int          `json:"procs,omitempty"`
 }
 
 var specCache sync.Map // path -> []byte
